@@ -354,7 +354,7 @@ def run(ck):
         "restricted_fragment_failures": rb[0],
         "multi_thread_probe": mt,
         "distribution": S.summarize_distribution(traces),
-        "exhaustive": exh,
+        "exhaustive_templates": exh,
     })
     return ck.finish(level="proof", trusted_base=S.TRUSTED + ["multi-thread probe is supporting evidence only (not scheduler-controlled)"])
 
